@@ -10,6 +10,7 @@ import (
 	"strconv"
 	"strings"
 	"sync"
+	"sync/atomic"
 	"testing"
 	"time"
 
@@ -124,7 +125,7 @@ type c11Sim struct {
 	bg        []uint64 // blocks waited for by helper goroutines, in order
 	bgSeen    int
 	mainWaits []uint64
-	calls     sync.WaitGroup
+	inflight  atomic.Int64 // waitForBlock calls in progress
 	curCalls  int
 	obs       map[uint]*c11Observed
 	order     []uint
@@ -163,8 +164,8 @@ func (s *c11Sim) step(n uint) (c11Step, bool) {
 // by a helper goroutine (context cancellation on a block) it registers a real
 // waiter on the fake counter.
 func (s *c11Sim) waitForBlock(ctx context.Context, block uint64) error {
-	s.calls.Add(1)
-	defer s.calls.Done()
+	s.inflight.Add(1)
+	defer s.inflight.Add(-1)
 	if c11Goid() == s.loopGoid {
 		s.mu.Lock()
 		s.mainWaits = append(s.mainWaits, block)
@@ -543,11 +544,9 @@ func c11RunMember(p c11Plan, mi int, ph c11Phase, signingLoop bool) c11Run {
 		s.inconcl = "the loop did not return"
 	}
 	cancel()
-	joined := make(chan struct{})
-	go func() { s.calls.Wait(); close(joined) }()
-	select {
-	case <-joined:
-	case <-time.After(c11Wait):
+	// helper goroutines (context cancellation on a block) end with the context;
+	// one that starts late finds the context cancelled and returns at once
+	if !verifkit.Eventually(c11Wait, func() bool { return s.inflight.Load() == 0 }) {
 		s.inconcl = "helper goroutines did not end"
 	}
 	return run
